@@ -70,7 +70,7 @@ static void ilup_case(const Pattern &p, int K) { hx::CaseOptions co; co.max_path
 static void ilut_case(const Pattern &p) { hx::CaseOptions co; co.max_paths=48; co.max_depth=120; hx::run_case("ilut/exact/"+p.name,[&]() { ZP_TRY Inputs in=inputs(p,true); rx::ilut<BE>::params prm; prm.p=scalar(p.n+1); prm.tau=scalar(0); prm.solve.serial=true; rx::ilut<BE> R(*in.Am,prm,BE::params()); auto adm=level_pattern(p,1000); ilu_checks("ilut(tau=0,p>=n)",R,*R.ilu,in,adm,true,scalar(1)); ZP_CATCH },co); }
 
 // Chebyshev: concrete SPD matrix, symbolic x0, x*:  x_k - x* = T_k((d - A)/c) / T_k(d/c) (x0 - x*)   (Gershgorin bounds)
-static void cheb_case(const Pattern &p, hx::Rng &rng, int degree, bool scale) { hx::run_case("chebyshev/deg"+std::to_string(degree)+(scale?"/scaled/":"/plain/")+p.name,[&]() { Inputs in=inputs(p,false,&rng); int n=in.n; rx::chebyshev<BE>::params prm; prm.degree=degree; prm.scale=scale; rx::chebyshev<BE> R(*in.Am,prm,BE::params());
+static void cheb_case(const Pattern &p, hx::Rng &rng, int degree, bool scale, float higher=1.0f, float lower=1.0f/30) { hx::run_case("chebyshev/deg"+std::to_string(degree)+(scale?"/scaled/":"/plain/")+(higher!=1.0f?"higher"+std::to_string((int)(higher*100))+"/":"")+p.name,[&]() { Inputs in=inputs(p,false,&rng); int n=in.n; rx::chebyshev<BE>::params prm; prm.degree=degree; prm.scale=scale; prm.higher=higher; prm.lower=lower;   /* non-default spectrum safety factors */ rx::chebyshev<BE> R(*in.Am,prm,BE::params());
     Dense A=in.A.dense(); if (scale) for (int i=0;i<n;++i) { scalar dii=A[i][i]; for (int j=0;j<n;++j) A[i][j]=A[i][j]/dii; }
     scalar hi=0; for (int i=0;i<n;++i) { scalar s=0; for (int j=0;j<n;++j) s+=hx::to_double(A[i][j])<0 ? scalar(0)-A[i][j] : A[i][j]; if (hx::to_double(s)>hx::to_double(hi)) hi=s; }
     scalar lo=hi*prm.lower; hi=hi*prm.higher; scalar d=(hi+lo)/2, c=(hi-lo)/2;
@@ -115,7 +115,7 @@ int main(int argc, char **argv) {
     for (auto &p : pats) { jacobi_case(p); spai0_case(p); gs_case(p); ilu0_case(p,false); if (p.n==3 || T) { ilu0_case(p,true); iluk_case(p,1); ilup_case(p,1); } if (p.n<=2 || T || rng.below(8)==0) ilut_case(p); if (p.n==3 && (T || rng.below(4)==0)) { iluk_case(p,2); iluk_case(p,3); } asprec_case(p); }
     for (auto &p : big) { jacobi_case(p); spai0_case(p); gs_case(p); ilu0_case(p,false); ilu0_case(p,true); iluk_case(p,1); if (p.n<=5) iluk_case(p,p.n); /* ILU(k=n) on the 3x2 grid: 20 sweep obligations beyond the 60 s budget */ ilup_case(p,1); if (T) ilup_case(p,2); }
     ilu0_block_case(2);
-    for (int k=0;k<(T?12:4);++k) { Pattern p = k%2 ? hx::grid_pattern(2+k%3,2) : hx::random_sym_pattern(3+rng.below(4),rng,2); for (int deg=1;deg<=(T?5:3);++deg) { cheb_case(p,rng,deg,false); cheb_case(p,rng,deg,true); } }
+    for (int k=0;k<(T?12:4);++k) { Pattern p = k%2 ? hx::grid_pattern(2+k%3,2) : hx::random_sym_pattern(3+rng.below(4),rng,2); for (int deg=1;deg<=(T?5:3);++deg) { cheb_case(p,rng,deg,false); cheb_case(p,rng,deg,true); if (deg==2 || T) { cheb_case(p,rng,deg,false,1.25f,0.0625f); cheb_case(p,rng,deg,true,0.75f,0.125f); } } }
     // SPAI-1: rows with at most two stored entries (the QR of wider rows leaves nested radicals z3 does not resolve within the budget)
     for (int n=2;n<=(T?5:4);++n) { Pattern ub; ub.n=ub.m=n; ub.ptr.push_back(0); for (int i=0;i<n;++i) { ub.col.push_back(i); if (i+1<n) ub.col.push_back(i+1); ub.ptr.push_back(ub.col.size()); } ub.name="upperbidiag"+std::to_string(n); spai1_case(ub,rng,true);
         Pattern lb; lb.n=lb.m=n; lb.ptr.push_back(0); for (int i=0;i<n;++i) { if (i>0) lb.col.push_back(i-1); lb.col.push_back(i); lb.ptr.push_back(lb.col.size()); } lb.name="lowerbidiag"+std::to_string(n); spai1_case(lb,rng,true); }
